@@ -1,11 +1,34 @@
 #!/bin/bash
-# usage: [SEED_REPO=...] tools/run_matrix.sh <seed dir> <id/n> ...   e.g. tools/run_matrix.sh /tmp C01/1 C01/2  (patches at <dir>/seed-<id>/<n>/patch.diff)
-#        or with kept seeds: tools/run_matrix.sh seeded C01-1 ...   (patches at seeded/<name>/patch.diff)
+# usage: [SEED_REPO=<clean checkout>] [JOBS=4] tools/run_matrix.sh <base dir> <name> ...
+#   patches at <base>/<name>/patch.diff (kept seeds: base=seeded) or <base>/seed-<name>/patch.diff
+# Runs tools/try_all.sh for each seed, JOBS at a time, each worker on its own copy of the checkout.
 cd "$(dirname "$0")/.."
 base="$1"; shift
-for d in "$@"; do
-  echo "#### $d"
+REPO="${SEED_REPO:-/repo}"
+JOBS="${JOBS:-4}"
+work=$(mktemp -d /tmp/matrix.XXXX)
+names=("$@")
+run_one() {
+  w="$1"; d="$2"
   if [ -f "$base/$d/patch.diff" ]; then pf="$base/$d/patch.diff"; else pf="$base/seed-$d/patch.diff"; fi
-  SEED_LINES=2 tools/try_all.sh "$pf" 2>&1 | grep -v "^WARN"
+  pf=$(readlink -f "$pf")
+  { echo "#### $d"; SEED_REPO="$work/repo$w" SEED_LINES=2 tools/try_all.sh "$pf" 2>&1 | grep -v "^WARN"; } > "$work/out.$d.txt" 2>&1
+}
+for w in $(seq 1 $JOBS); do
+  mkdir -p "$work/repo$w"
+  (cd "$REPO" && git archive HEAD) | tar -x -C "$work/repo$w"
+  (cd "$work/repo$w" && git init -q && git add -A >/dev/null 2>&1 && git -c user.email=x@x -c user.name=x commit -qm base >/dev/null 2>&1)
 done
+i=0
+for d in "${names[@]}"; do
+  w=$(( i % JOBS + 1 ))
+  i=$(( i + 1 ))
+  # each worker processes its seeds sequentially: chain by waiting on the previous job of the same worker
+  eval "prev=\${pid$w:-}"
+  ( [ -n "$prev" ] && while kill -0 $prev 2>/dev/null; do sleep 2; done; run_one $w "$d" ) &
+  eval "pid$w=$!"
+done
+wait
+for d in "${names[@]}"; do cat "$work/out.${d//\//\/}.txt" 2>/dev/null || cat "$work/out.$d.txt"; done
+rm -rf "$work"
 echo MATRIX-DONE
